@@ -1,7 +1,6 @@
 (* Lemmas about the std string / integer function models of CodecStr.v (C18). *)
 From V.model Require Import Base CodecStr.
 From V.proofs Require Import BaseP.
-Set Default Timeout 60.
 
 Local Open Scope N_scope.
 
